@@ -183,7 +183,7 @@ class Runner:
       o = nodes[abs(j[1]) % len(nodes)]
       diverges = False
       if cx['target'] is not None and o.sym_parent is None:
-        # F30 / F33: moving `o` under a container one of whose believed ancestors lives in `o`
+        # F30 / F78: moving `o` under a container one of whose believed ancestors lives in `o`
         sub = self.subtree_ids(o)
         c, steps = cx['target'], 0
         while c is not None and steps <= cx['fuel']:
@@ -281,7 +281,7 @@ class Runner:
       return self.resolve_ve(cx, set(), j.get(field))
 
     def drop_own(dest, ve):
-      # F32 guard: an existing child of list `dest` is not offered as an insertion into `dest`
+      # F79 guard: an existing child of list `dest` is not offered as an insertion into `dest`
       if ve[0] == 'ref' and not cx['unsafe'] and ve[1].sym_parent is dest:
         return ('atom', None)
       return ve
